@@ -8,6 +8,9 @@ use std::path::Path;
 
 use web_time::SystemTime;
 
+pub use crate::internal::sync::{
+    verif_set_gate, verif_start_recording, verif_take_events, VerifLockEvent,
+};
 use crate::internal::{self, Timestamp};
 use crate::CompoundFile;
 
